@@ -1,3 +1,4 @@
+#define _GNU_SOURCE
 /* harness/foam/h.c -- drives foamToBuffer / foamFrBuffer / foamSIntReduce of the
  * CURRENT tree.  foam.c is #included (not linked) so that the static label
  * format latch `labelFmt' can be set and read; everything else is linked from
@@ -10,11 +11,18 @@
  *   dec <latch> <hex>
  *        -> "<consumed> <latch> <tree> | <hex of re-encoding> <latch>"
  *   sred <n>  -> tree of foamSIntReduce(SInt n)
+ *   totext ( tree )  -> hex of the .fm text foamWrSExpr writes
+ *   frtext <path>    -> tree foamRdSExpr reads from the file
+ *   armembers <path> -> name:pos of the members arRead records | E<number of diagnostics raised>
  */
 #include "foam.c"
 #include "opsys.h"
 #include "xfloat.h"
+#include "archive.h"
+#include "comsg.h"
 #include <stdio.h>
+#include <unistd.h>
+#include <fcntl.h>
 #include <stdlib.h>
 #include <string.h>
 
@@ -93,6 +101,7 @@ static void print_node(Foam foam) {
 
 int main(int argc, char **argv) {
 	osInit(); sxiInit(); keyInit(); ssymInit(); dbInit(); stabInitGlobal(); tfInit(); foamInit();
+	comsgInit(); comsgSetOption("no-emax");		/* messages are collected, never printed */
 	while (getline(&line, &cap, stdin) > 0) {
 		size_t n = strlen(line), i; char *p;
 		if (n && line[n - 1] == '\n') line[--n] = 0;
@@ -117,6 +126,37 @@ int main(int argc, char **argv) {
 			printf("%lx %x ", (long) bufPosition(buf), labelFmt); print_node(foam);
 			labelFmt = st; l2 = foamToBuffer(out, foam);
 			printf(" | "); print_bytes(bufData(out), l2); printf(" %x\n", labelFmt);
+		} else if (!strcmp(toks[0], "totext")) {
+			/* the .fm text of a tree, exactly as emit.c writes it */
+			Foam foam; char *mem = 0; size_t msz = 0; FILE *f;
+			tpos = 1; foam = parse_node();
+			f = open_memstream(&mem, &msz);
+			foamWrSExpr(f, foam, SXRW_NoSrcPos);
+			fclose(f);
+			print_bytes((unsigned char *) mem, (long) msz); printf("\n");
+			free(mem);
+		} else if (!strcmp(toks[0], "frtext")) {
+			/* foamRdSExpr on a file */
+			FileName fn = fnameParse(toks[1]);
+			FILE *fin = fileRdOpen(fn);
+			Foam foam = foamRdSExpr(fin, &fn, NULL);
+			fclose(fin);
+			print_node(foam); printf("\n");
+		} else if (!strcmp(toks[0], "armembers")) {
+			/* arRead: the members archive.c records */
+			int e0 = comsgErrorCount(), saved;
+			Archive ar;
+			/* diagnostics without a source position are printed at once: keep them off the protocol */
+			fflush(stdout); saved = dup(1); { int nul = open("/dev/null", O_WRONLY); dup2(nul, 1); close(nul); }
+			ar = arRead(fnameParse(toks[1]));
+			fflush(stdout); dup2(saved, 1); close(saved);
+			ArEntryList l;
+			for (l = ar->members; l; l = cdr(l)) {
+				print_bytes((unsigned char *) car(l)->name, strlen(car(l)->name));
+				printf(":%lx ", (unsigned long) car(l)->pos);
+			}
+			/* how many diagnostics (ALDOR_E_ArTruncated / ArBadNumber) reading raised */
+			printf("| E%d\n", comsgErrorCount() - e0);
 		} else if (!strcmp(toks[0], "sred")) {
 			Foam f = foamSIntReduce(foamNewSInt(parse_hex(toks[1])));
 			print_node(f); printf("\n");
